@@ -15,10 +15,10 @@ Huge == 1073741824     \* "mod" that never wraps: all values distinct
 Edge == IF Deep THEN {0, 1, 127, 128, 255} ELSE {0, 128, 255}
 Bytes == 0 .. 255
 A24(SA, SB, SC) == {a * 65536 + b * 256 + c : a \in SA, b \in SB, c \in SC}
-\* 24-bit space: every byte value in each position with the other two on sign/carry edges (quick);
-\* every pair of byte values in two positions with the third on an edge (Deep)
-Addr24 == IF Deep THEN A24(Bytes, Bytes, Edge) \cup A24(Bytes, Edge, Bytes) \cup A24(Edge, Bytes, Bytes)
-          ELSE A24(Bytes, Edge, Edge) \cup A24(Edge, Bytes, Edge) \cup A24(Edge, Edge, Bytes)
+\* 24-bit space: every byte value in each position with the other two on sign/carry edges; Deep adds
+\* every address below 2^17 (all low byte pairs, with the carry into the third byte)
+Addr24 == A24(Bytes, Edge, Edge) \cup A24(Edge, Bytes, Edge) \cup A24(Edge, Edge, Bytes)
+          \cup (IF Deep THEN 0 .. 131071 ELSE {})
 Main == ModelPaths = "builder"      \* the main run; the auxiliary runs skip constant-level work
 A16(SA, SB) == {a * 256 + b : a \in SA, b \in SB}
 Addr16 == IF Deep THEN 0 .. 65535 ELSE A16(Bytes, Edge) \cup A16(Edge, Bytes)
@@ -63,10 +63,14 @@ Plan == <<
   R("tmplstringconsts", MaxTable8,    0,    1, Huge, "hash", TRUE, TRUE),
   R("tmpltypes",        MaxTable8,    0,    1, Huge, "hash", TRUE, TRUE) >>
 
+\* wide (small) resources: {1, cap/2} and cap-Span..cap+Span.  Large programs (not wide): cap/2 only
+\* when Deep.  Resources without a reachable limit (jumps): {1, cap/2}, Deep adds {cap, cap + cap/2}.
 Points(p) ==
   LET around == (p.cap - Span) .. (p.cap + Span)
-      mids   == IF Deep /\ ~p.locate THEN {p.cap \div 2, p.cap + p.cap \div 2} ELSE {p.cap \div 2}
-  IN {n \in {1} \cup mids \cup (IF p.locate THEN around ELSE {p.cap}) : n >= 1}
+      half   == p.cap \div 2
+      pts    == IF ~p.locate THEN {1, half} \cup (IF Deep THEN {p.cap, p.cap + half} ELSE {})
+                ELSE {1} \cup around \cup (IF p.wide \/ Deep THEN {half} ELSE {})
+  IN {n \in pts : n >= 1}
 Case(i) ==
   LET p == Plan[i]  pts == SetToSeq(Points(p)) IN
   [id |-> i, rid |-> i, res |-> p.res, cap |-> p.cap, locate |-> p.locate, span |-> Span,
